@@ -298,6 +298,9 @@ func ruleC13(c *Check, p *Prog) {
 				}
 			} else {
 				rowDetail = fmt.Sprintf("closure performs %d sends and %d other effects", len(sends), len(others))
+				if len(sends) == 1 && len(others) == 0 {
+					rowDetail += fmt.Sprintf(" (send %v under %v; expected channel %v)", sends[0].Args[0], sends[0].Guard, outCh)
+				}
 			}
 		}
 		c.Expect(rowOK, "R-ROW", "worker_"+sc.Tag, wherePos(p, sendEv),
